@@ -492,12 +492,12 @@ structure FlatLaws (I : FIface Raw Inst Ctx Val Hdr Err S) : Prop where
   del_absent : ∀ c k, I.get c k = none → I.del c k = c
   put_del : ∀ c k a, I.get c k = some a → I.put (I.del c k) k a = c
 
-/-- what separates the tree reading of the flat machine (`evF`) from `Sugar.evItems`: rows that
-the tree reading never looks at are read by the real parser -/
-structure QuietLaws (I : FIface Raw Inst Ctx Val Hdr Err S) : Prop where
-  /-- every row parses without templating (true of a sheet whose type cells are known types) -/
-  scan_ok : ∀ r, I.scanFail r = none
-  /-- end rows instantiate in every context (true of end rows whose other cells are blank) -/
-  inst_end : ∀ ctx r, I.kind r = .endFor ∨ I.kind r = .endBlock → ∃ i, I.inst ctx r = .ok i
+/-- what separates the tree reading of the flat machine (`evF`) from `Sugar.evItems` on a sheet:
+rows that the tree reading never looks at are read by the real parser.  A sheet is quiet when
+every row parses without templating (true when its type cells are known types) and its end rows
+instantiate in every context (true of end rows whose other cells are blank). -/
+def Quiet (I : FIface Raw Inst Ctx Val Hdr Err S) (rows : List Raw) : Prop :=
+  ∀ r ∈ rows, I.scanFail r = none ∧
+    ((I.kind r = .endFor ∨ I.kind r = .endBlock) → ∀ ctx, ∃ i, I.inst ctx r = .ok i)
 
 end Rpft.SugarFlat
